@@ -1193,3 +1193,506 @@ def check_C17(chk, binp):
     if not bad:
         for i in bm[:3]:
             chk.violation('correspondence broken (search model, history) on %s' % cases[i], {'kind': 'correspondence', 'case': cases[i]}, found_input=False)
+
+# ------------------------------------------------------------------ UCI sessions (C07, C14, C18)
+import uci as U
+
+import threading
+def spec_one(cmdline, tag='spec1'):
+    # sessions run in threads: every thread gets its own scratch directory
+    return run_cases(MODEL, [cmdline], '%s-%d' % (tag, threading.get_ident()), shards=1)[0]
+
+def coord_of(mvtext):
+    return mvtext
+
+def legal_coord(fen, mv):
+    """is the coordinate move legal in fen under the rules?"""
+    r = spec_one('specplay\t%s\t%s' % (fen, mv), 'uci-legal')
+    return r is not None and not r.startswith('illegal') and r != 'badfen'
+
+def gen_games(rnd, n, tag):
+    roots = [G.START] * 3 + G.corpus()[:20]
+    lines = ['specgame\t%d\t%d\t%s' % (rnd.randrange(1 << 30), rnd.randrange(2, 30), rnd.choice(roots)) for _ in range(n)]
+    res = run_cases(MODEL, lines, tag)
+    games = []
+    for l, r in zip(lines, res):
+        if not r or r == 'badfen':
+            continue
+        root = l.split('\t')[3]
+        items = [x.split('=') for x in r.split(';') if '=' in x]
+        games.append((root, [m for m, _ in items], [f for _, f in items]))
+    return games
+
+def run_uci_session(binp, rnd, game, has_moves, malformed=None):
+    """one seeded session; returns (steps, problems). The monitor keeps the position the rules define."""
+    problems = []
+    S = U.Session(binp)
+    cur = G.START
+    gos = []          # positions of the `go`s on live positions, in order
+    best = []         # bestmove tokens seen, in order
+    def absorb(step, after_collect):
+        for l in step['out']:
+            if l.startswith('bestmove'):
+                best.append(l.split(' ')[1] if len(l.split(' ')) > 1 else '')
+        if len(best) > len(gos):
+            problems.append('a bestmove was printed that no go asked for (%d bestmoves, %d gos) after %r' % (len(best), len(gos), step['cmd']))
+        if after_collect and len(best) != len(gos):
+            problems.append('after %r: %d go commands on positions with a legal move but %d bestmove lines' % (step['cmd'], len(gos), len(best)))
+        if step['synced'] is False:
+            problems.append('no readyok after %r (process %s)' % (step['cmd'], 'alive' if S.alive() else 'dead'))
+    st = S.send('uci')
+    if not any(l.startswith('id name') for l in st['out']) or not any(l.startswith('id author') for l in st['out']) or 'uciok' not in st['out']:
+        problems.append('uci not answered with id lines and uciok: %r' % st['out'])
+    root, moves, fens = game
+    nseg = rnd.randrange(1, 5)
+    for seg in range(nseg):
+        k = rnd.randrange(0, len(moves) + 1)
+        if root == G.START and rnd.random() < 0.6:
+            cmd = 'position startpos' + (' moves ' + ' '.join(moves[:k]) if k else '')
+        else:
+            cmd = 'position fen ' + root + (' moves ' + ' '.join(moves[:k]) if k else '')
+        expect = fens[k - 1] if k else root
+        st = S.send(cmd, settle=rnd.choice([0, 0, 0.005, 0.05])); absorb(st, True)
+        cur = expect
+        st = S.send('.state'); absorb(st, False)
+        got = U.state_fen(st)
+        if got != cur:
+            problems.append('after %r the engine position is %r, the rules give %r' % (cmd, got, cur))
+        if malformed and rnd.random() < 0.7:
+            for bad in rnd.sample(malformed, rnd.randrange(1, 4)):
+                st = S.send(bad); absorb(st, False)
+                collects = bad.split(' ')[0] in ('position', 'stop', 'go', 'ucinewgame') if bad.strip() else False
+            st = S.send('.state'); absorb(st, False)
+            got2 = U.state_fen(st)
+            # a malformed position command may legitimately set the position part before failing on the moves; re-pin it
+            st = S.send(cmd); absorb(st, True)
+        live = has_moves(cur)
+        for _ in range(rnd.randrange(0, 3)):
+            kind = rnd.random()
+            if kind < 0.45:
+                g = 'go depth %d' % rnd.choice([1, 1, 2, 2, 3])
+            elif kind < 0.9:
+                g = 'go movetime %d' % rnd.choice([0, 1, 30, 120, 300])
+            else:
+                g = 'go depth 2 movetime 200'
+            if not live:
+                break
+            gos.append(cur)
+            st = S.send(g, settle=rnd.choice([0, 0, 0.01, 0.08, 0.25])); absorb(st, False)
+            if rnd.random() < 0.35:
+                st = S.send('isready'); absorb(st, False)
+            nxt = rnd.random()
+            if nxt < 0.35:
+                st = S.send('stop'); absorb(st, True)
+            elif nxt < 0.55:
+                # let it finish by itself (depth limit / movetime / book)
+                if len(best) < len(gos):
+                    S.wait_output(lambda l: l.startswith('bestmove'), 25.0)
+                    for l in S.steps[-1]['out']:
+                        if l.startswith('bestmove'):
+                            best.append(l.split(' ')[1] if len(l.split(' ')) > 1 else '')
+                if len(best) != len(gos):
+                    problems.append('no bestmove within 25 s after %r on %s' % (g, cur))
+            elif nxt < 0.65:
+                st = S.send('ucinewgame'); absorb(st, True)
+            # else: the next go/position collects it
+    rc = S.close(quit_cmd=rnd.random() < 0.7)
+    for l in S.steps[-1]['out']:
+        if l.startswith('bestmove'):
+            best.append(l.split(' ')[1] if len(l.split(' ')) > 1 else '')
+    if rc != 0:
+        problems.append('exit status %r' % rc)
+    if len(best) != len(gos):
+        problems.append('at the end: %d go commands on positions with a legal move, %d bestmove lines' % (len(gos), len(best)))
+    for f, mv in zip(gos, best):
+        if not mv or not legal_coord(f, mv):
+            problems.append('bestmove %s is not legal in %s' % (mv, f))
+    if not malformed or True:
+        problems += compare_with_uci_model(binp, S.steps)
+    return S.steps, problems, len(gos)
+
+INFO_MAP = {'info string unparsable go commands': 'info1', 'info string invalid fen position': 'info2', 'info string unknown position command': 'info3',
+            'info string invalid move format': 'info4', 'info string invalid move': 'info5', 'info string unknown command': 'info6'}
+
+def compare_with_uci_model(binp, steps):
+    """replay the commands of a real session through the extracted Uci.v state machine and compare what is determined:
+    fixed info strings, protocol answers, position dumps, book-or-search decision, and the bestmove count at collection points"""
+    main = [st for st in steps if not st['cmd'].startswith('(')]
+    lines = [st['cmd'] for st in main]
+    def model(books):
+        arg = '|'.join(books) if books else '-'
+        r = spec_one('ucimodel\t%s\t%s' % (arg, G.esc(chr(0x1f).join(lines))), 'uci-model')
+        return [x.split('~') if x else [] for x in (r or '').split(' || ')]
+    m1 = model([])
+    gofens = sorted(set(t.split(':', 1)[1].rsplit(':', 1)[0] for stp in m1 for t in stp if t.startswith('start:')))
+    inbook = []
+    if gofens:
+        br = run_cases(binp, ['book\t' + f for f in gofens], 'uci-book-%d' % threading.get_ident(), shards=1)
+        inbook = [f for f, r in zip(gofens, br) if r not in (None, 'none', 'badfen')]
+    m = model(inbook) if inbook else m1
+    problems = []
+    if len(m) < len(main):
+        problems.append('model produced %d steps for %d commands' % (len(m), len(main)))
+        return problems
+    real_best = 0; model_best = 0; pending_live = 0
+    for st, mo in zip(main, m):
+        real_info = sorted(INFO_MAP[l] for l in st['out'] if l in INFO_MAP)
+        model_info = sorted(t for t in mo if t.startswith('info'))
+        if real_info != model_info:
+            problems.append('%r: engine printed %s, session model expects %s' % (st['cmd'], real_info, model_info))
+        if any(t.startswith('state:') for t in mo):
+            want = [t.split(':', 1)[1] for t in mo if t.startswith('state:')][0]
+            got = U.state_fen(st)
+            if got != want:
+                problems.append('%r: engine position %r, session model %r' % (st['cmd'], got, want))
+        for tok, line in (('uciok', 'uciok'), ('readyok', None)):
+            if tok in mo and line and line not in st['out']:
+                problems.append('%r: missing %s' % (st['cmd'], line))
+        real_book = any(l.startswith('info string book move') for l in st['out'])
+        model_book = any(t.startswith('book:') for t in mo)
+        if real_book != model_book:
+            problems.append('%r: book move %s by the engine, %s by the session model' % (st['cmd'], real_book, model_book))
+    return problems
+
+def make_has_moves():
+    cache = {}
+    def has_moves(fen):
+        if fen not in cache:
+            cache[fen] = spec_one('specterm\t' + fen, 'uci-term') == 'none'
+        return cache[fen]
+    return has_moves
+
+MALFORMED_LINES = ['position startpos moves e2', 'position startpos moves e2e', 'position startpos moves e2e4 e7', 'position startpos moves é2e4',
+                   'position startpos moves eée4', 'position startpos moves e2e4é', 'position startpos moves e2e4x', 'position startpos moves e2e4qq',
+                   'position fen', 'position fen 8/8 w - - 0 1', 'position fen ' + '8' * 32 + '/8/8/8/8/8/8/8 w - - 0 1', 'position', 'position foo',
+                   'position startpos moves', 'position startpos moves a1a1', 'position startpos moves e2e5', 'go depth', 'go depth x', 'go depth -1',
+                   'go movetime', 'go movetime abc', 'go movetime 99999999999999999999', 'go depth 18446744073709551616 movetime 0', 'go wtime 1000', '', '   ',
+                   'xyzzy', 'stop stop', 'isready extra', ' ', 'position fen rnbqkbnr/pppppppp/8/8/8/8/PPPPPPPP/RNBQKBNR w KQkq - 0 18446744073709551616',
+                   'position startpos moves e7e8q', 'position startpos moves 0000', 'position startpos moves e2e4 moves e7e5', 'ucinewgame now', 'go infinite']
+
+def uci_sessions(chk, binp, n, with_malformed):
+    rnd = random.Random(chk.seed + (7 if with_malformed else 0))
+    games = gen_games(rnd, n, chk.prop + '-games')
+    has_moves = make_has_moves()
+    results = []
+    import concurrent.futures as cf
+    def one(i):
+        r = random.Random(chk.seed * 1000 + i)
+        bad = None
+        if with_malformed:
+            bad = [l for l in MALFORMED_LINES if not l.startswith('go ') or 'depth 1844' not in l]
+            bad = [l for l in bad if not (l.startswith('go') and ('infinite' in l or 'wtime' in l or l.strip() in ('go depth', 'go movetime', 'go depth x', 'go depth -1', 'go movetime abc', 'go movetime 99999999999999999999')))]
+        return run_uci_session(binp, r, games[i % len(games)], has_moves, bad)
+    with cf.ThreadPoolExecutor(max_workers=4) as ex:
+        results = list(ex.map(one, range(n)))
+    return results
+
+def check_C07(chk, binp):
+    quick = chk.tier == 'quick'
+    res = uci_sessions(chk, binp, 24 if quick else 400, False)
+    nb = 0; ngo = 0
+    for i, (steps, problems, g) in enumerate(res):
+        ngo += g
+        chk.distinct.add(i)
+        if problems:
+            nb += 1
+            chk.violation('UCI session %d: %s' % (i, problems[0]), {'kind': 'history', 'problems': problems[:5], 'transcript': [(s['cmd'], s['out'][-6:]) for s in steps][:80]}, found_input=True)
+    chk.streams.append({'name': 'seeded well-formed UCI sessions monitored against the rules (position tracking, one legal bestmove per go, protocol, exit status)', 'against': 'session monitor + extracted rules specification', 'cases': len(res), 'disagreements': nb})
+    chk.evaluations += sum(len(s) for s, _, _ in res)
+    chk.extra['go_commands'] = ngo
+    chk.extra['sessions'] = len(res)
+    chk.rule = 'sessions of 1..4 position commands (startpos/fen with 0..29 legal moves from spec-driven games), 0..2 go commands each (depth 1..3, movetime 0..300 ms), followed by stop / waiting / ucinewgame / the next command, at seeded delays; every command is followed by isready to order the transcript'
+    if res:
+        chk.samples += [[(s['cmd'], s['out'][-3:]) for s in res[0][0]][:14]]
+
+def check_C14(chk, binp):
+    quick = chk.tier == 'quick'
+    rnd = random.Random(chk.seed)
+    # parsers under catch_unwind, overflow-checked profile (this binary) and release profile
+    fens = G.corpus() + G.COUNTER_FENS
+    strs = G.fen_strings(chk.seed, fens, 6000 if quick else 200000)
+    c1 = ['fenrt\t' + G.esc(s) for s in strs]
+    i1 = run_cases(binp, c1, 'C14-fen-impl')
+    m1 = run_cases(MODEL, c1, 'C14-fen-model')
+    b1 = stream(chk, 'FEN reader outcome class (Ok fen / Err / panic), overflow-checked build', c1, i1, m1, 'extracted implementation model (explicit panic outcomes)')
+    p1 = [i for i, r in enumerate(i1) if r is None or r == 'panic']
+    okr, msg, relbin = wvlib.build_harness('release')
+    chk.oblig('build of the harness in the release profile (wrapping arithmetic)', okr, msg if not okr else '')
+    i1r = run_cases(relbin, c1, 'C14-fen-rel') if okr else []
+    p1r = [i for i, r in enumerate(i1r) if r is None or r == 'panic']
+    diffprof = [i for i, (a, b) in enumerate(zip(i1, i1r)) if a != b]
+    chk.streams.append({'name': 'FEN reader: no panic, same outcome in the checked and the release profile', 'against': 'the property', 'cases': len(c1), 'disagreements': len(p1) + len(p1r) + len(diffprof)})
+    # SAN strings
+    sans = []
+    alphabet = 'KQRBNPabcdefgh12345678x=+#O-0o ' + 'é♔'
+    base = ['e4', 'Nf3', 'exd5', 'O-O', 'O-O-O', 'e8=Q', 'e8Q+', 'Rad1', 'R1d2', 'Qh4xe1#', 'bxa8=N+', 'Ke2', 'O-O+', 'dxe8=Q#']
+    for _ in range(4000 if quick else 100000):
+        k = rnd.random()
+        if k < 0.5:
+            s = rnd.choice(base); i = rnd.randrange(len(s) + 1)
+            s = s[:i] + rnd.choice(alphabet) + s[i + rnd.randrange(0, 2):]
+        else:
+            s = ''.join(rnd.choice(alphabet) for _ in range(rnd.randrange(0, 9)))
+        sans.append(s)
+    sf = rnd.sample(G.corpus(), 5)
+    c2 = ['san\t%s\t%s' % (rnd.choice(sf), G.esc(s)) for s in sans + base]
+    i2 = run_cases(binp, c2, 'C14-san-impl')
+    m2 = run_cases(MODEL, c2, 'C14-san-model')
+    b2 = stream(chk, 'SAN parser + matcher outcome on mutated/random move text', c2, i2, m2, 'extracted implementation model')
+    p2 = [i for i, r in enumerate(i2) if r is None or r == 'panic']
+    chk.streams.append({'name': 'SAN parser: no panic', 'against': 'the property', 'cases': len(c2), 'disagreements': len(p2)})
+    chk.extra['fen_outcomes'] = hist([(r or 'none').split(' ')[0] for r in i1])
+    chk.extra['san_outcomes'] = hist([(r or 'none').split(' ')[0] for r in i2])
+    # UCI process with malformed lines
+    res = uci_sessions(chk, binp, 10 if quick else 200, True)
+    nb = 0
+    for i, (steps, problems, g) in enumerate(res):
+        if problems:
+            nb += 1
+            chk.violation('UCI session with malformed lines %d: %s' % (i, problems[0]), {'kind': 'history', 'problems': problems[:5], 'transcript': [(s['cmd'], s['out'][-4:]) for s in steps][:80]}, found_input=True)
+    chk.streams.append({'name': 'UCI process fed malformed lines stays alive, answers isready, keeps its position, exits 0', 'against': 'session monitor', 'cases': len(res), 'disagreements': nb})
+    # inventory of panic sites in the parsers / UCI loop vs the sites the model treats
+    inv = json.load(open(f'{VERIF}/inventories/panic_sites.json'))
+    exp_path = f'{VERIF}/tools/panic_sites_expected.json'
+    exp = json.load(open(exp_path)) if os.path.exists(exp_path) else None
+    same = exp == inv
+    chk.oblig('panic-site inventory of notation.rs / uci.rs equals the list the model was written against', same, '' if same else 'inventory differs: ' + json.dumps({k: (exp or {}).get(k) for k in set(inv) ^ set(exp or {})} if exp else inv)[:500])
+    if not same:
+        diff = {k: [(exp or {}).get(k), inv.get(k)] for k in set(inv) | set(exp or {}) if (exp or {}).get(k) != inv.get(k)}
+        chk.violation('a possible panic site appeared/disappeared in the parsers or the UCI loop (the model no longer covers the code): %s' % diff, {'kind': 'source-shape', 'diff': diff}, found_input=False)
+    for c in c1 + c2:
+        chk.distinct.add(c)
+    chk.rule = 'grammar-derived FEN strings with 22 mutation kinds (field counts, over-long ranks, digit floods, counters around 2^64, Unicode separators/digits, multi-byte characters), random strings; mutated and random SAN text; UCI sessions with malformed lines interleaved; two build profiles'
+    chk.samples += [c1[0], c2[0]]
+    for i in (p1 + p1r)[:3]:
+        chk.violation('FEN reader panicked on %r' % strs[i], {'kind': 'input', 'string': strs[i], 'escaped': c1[i]}, found_input=True)
+    for i in diffprof[:2]:
+        chk.violation('FEN reader outcome depends on the build profile for %r: %s vs %s' % (strs[i], i1[i], i1r[i]), {'kind': 'input', 'string': strs[i]}, found_input=True)
+    for i in p2[:3]:
+        chk.violation('SAN parser panicked on %s' % c2[i], {'kind': 'input', 'case': c2[i]}, found_input=True)
+    if not (p1 or p1r or diffprof or p2 or nb):
+        for i in b1[:2]:
+            chk.violation('correspondence broken (fen reader) on %s: code %s model %s' % (c1[i], i1[i], m1[i]), {'kind': 'correspondence', 'case': c1[i]}, found_input=False)
+        for i in b2[:2]:
+            chk.violation('correspondence broken (san) on %s: code %s model %s' % (c2[i], i2[i], m2[i]), {'kind': 'correspondence', 'case': c2[i]}, found_input=False)
+
+# ------------------------------------------------------------------ C18
+def find_pq(chk, n):
+    """(P, Q): P has a forced mate in 3 plies whose only mate-keeping first move leaves the defender exactly one reply,
+    reaching Q (same side to move as P, mate in 1): if Q is wrongly remembered as a repetition the mate in P cannot be seen"""
+    rnd = random.Random(chk.seed + 18)
+    wins, _ = mate_positions(chk, 'C18', 700 if chk.tier == 'quick' else 6000, 3)
+    out = []
+    for f, d, keep in wins:
+        if d != 3 or len(keep) != 1:
+            continue
+        (mv, succ), = keep.items()
+        rep = spec_one('specgen\t' + succ, 'C18-rep')
+        if not rep or ';' in rep:
+            continue
+        q = rep.split('=')[1]
+        out.append((f, q))
+        if len(out) >= n:
+            break
+    return out
+
+def c18_session(binp, pre, P, depth):
+    S = U.Session(binp)
+    for c in pre:
+        S.send(c, settle=0.05 if c.startswith('go') else 0)
+    S.send('position fen ' + P)
+    S.send('go depth %d' % depth)
+    got = S.wait_output(lambda l: l.startswith('bestmove'), 40.0)
+    S.close()
+    lines = [l for st in S.steps for l in st['out']]
+    scores = [float(l.split(' ')[3]) for l in got if l.startswith('info score cp')]
+    bm = [l for l in got if l.startswith('bestmove')]
+    return (max(scores) if scores else None), (bm[-1] if bm else None), [(s['cmd'], s['out'][-3:]) for s in S.steps]
+
+def check_C18(chk, binp):
+    quick = chk.tier == 'quick'
+    pq = find_pq(chk, 3 if quick else 20)
+    chk.extra['pq_pairs'] = pq
+    bad = []
+    n = 0
+    for P, Q in pq:
+        histories = {
+            'finished-then-stop': ['position fen ' + Q, 'go depth 2', 'stop', 'ucinewgame'],
+            'collected-by-position': ['position fen ' + Q, 'go depth 2', 'position fen ' + Q, 'ucinewgame'],
+            'collected-by-go': ['position fen ' + Q, 'go depth 2', 'go depth 1', 'stop', 'ucinewgame'],
+            'running': ['position fen ' + Q, 'go depth 2', 'ucinewgame'],
+            'two-games': ['position fen ' + Q, 'go depth 2', 'stop', 'ucinewgame', 'position fen ' + Q, 'go depth 1', 'stop', 'ucinewgame'],
+        }
+        fresh_score, fresh_bm, _ = c18_session(binp, [], P, 4)
+        for name, pre in histories.items():
+            n += 1
+            sc, bm, tr = c18_session(binp, pre, P, 4)
+            chk.distinct.add((P, name))
+            # a fresh process sees the forced mate (winning terminal evaluation); so must the session after ucinewgame
+            if fresh_score is None or fresh_score < 10000:
+                chk.notes.append('fresh process does not report the mate for %s (score %s): pair skipped' % (P, fresh_score))
+                break
+            if sc is None or sc < 10000:
+                bad.append((P, Q, name, sc, bm, tr))
+    chk.streams.append({'name': 'after ucinewgame the mate-in-2 of P is reported as in a fresh process although Q was searched in the previous game', 'against': 'a fresh process on the same position', 'cases': n, 'disagreements': len(bad)})
+    chk.evaluations += n
+    chk.rule = 'solver-found pairs (P, Q): P mate in 3 plies through Q only; histories before ucinewgame: search of Q finished+stop / collected by position / collected by go / still running / two previous games; then P searched at depth 4 and compared with a fresh process'
+    chk.samples += [{'P': P, 'Q': Q} for P, Q in pq[:2]]
+    for P, Q, name, sc, bm, tr in bad[:3]:
+        chk.violation('history %s: after ucinewgame the search of %s no longer sees the mate (score %s, %s); Q=%s was searched in the previous game' % (name, P, sc, bm, Q),
+                      {'kind': 'history', 'P': P, 'Q': Q, 'history': name, 'transcript': tr}, found_input=True)
+
+# ------------------------------------------------------------------ C16
+def book_games_raw(repo='/repo'):
+    """the raw whitespace tokens of every movetext chunk (as the build script sees them)"""
+    games = []
+    bd = os.path.join(repo, 'book')
+    for fn in sorted(os.listdir(bd)):
+        p = os.path.join(bd, fn)
+        if os.path.isfile(p):
+            txt = open(p, encoding='utf-8', errors='replace').read()
+            for chunk in txt.strip().split('\n\n'):
+                if chunk.startswith('1.'):
+                    games.append(chunk.split()[:40])
+    return games
+
+def book_games(repo='/repo'):
+    games = []
+    bd = os.path.join(repo, 'book')
+    for fn in sorted(os.listdir(bd)):
+        p = os.path.join(bd, fn)
+        if not os.path.isfile(p):
+            continue
+        txt = open(p, encoding='utf-8', errors='replace').read()
+        for chunk in txt.strip().split('\n\n'):
+            if not chunk.startswith('1.'):
+                continue
+            toks = []
+            for t in chunk.split():
+                if t in ('1/2-1/2', '1-0', '0-1') or t.endswith('.'):
+                    continue
+                if '.' in t:
+                    t = t[t.index('.') + 1:]
+                toks.append(t)
+            games.append(toks[:10])
+    return games
+
+def check_C16(chk, binp):
+    quick = chk.tier == 'quick'
+    rnd = random.Random(chk.seed)
+    games = book_games()
+    chk.extra['games_in_book'] = len(games)
+    sel = games if not quick else rnd.sample(games, min(len(games), 500))
+    # resolve every (position, token) by the rules (SanSpec), breadth first over the trie of game prefixes
+    succ = {}     # (fen, token) -> (move, next fen)
+    frontier = {G.START}
+    prefix_pos = {(): G.START}
+    for ply in range(10):
+        need = set()
+        for g in sel:
+            if len(g) > ply:
+                key = tuple(g[:ply])
+                if key in prefix_pos:
+                    need.add((prefix_pos[key], g[ply]))
+        need = sorted(x for x in need if x not in succ)
+        res = run_cases(MODEL, ['specsan\t%s\t%s' % (f, t) for f, t in need], 'C16-san%d' % ply)
+        for (f, t), r in zip(need, res):
+            succ[(f, t)] = r
+        for g in sel:
+            if len(g) > ply:
+                key = tuple(g[:ply])
+                if key in prefix_pos:
+                    r = succ.get((prefix_pos[key], g[ply]))
+                    if r and '=' in r:
+                        prefix_pos[tuple(g[:ply + 1])] = r.split('=')[1]
+    unresolved = [(f, t, r) for (f, t), r in succ.items() if not r or '=' not in r]
+    # expected offers per rule key, from ALL games when thorough; in quick the sampled games give a lower bound (subset check)
+    pos_moves = {}
+    for g in sel:
+        for ply in range(len(g)):
+            key = tuple(g[:ply])
+            if key in prefix_pos and (prefix_pos[key], g[ply]) in succ and '=' in (succ[(prefix_pos[key], g[ply])] or ''):
+                pos_moves.setdefault(prefix_pos[key], set()).add(succ[(prefix_pos[key], g[ply])].split('=')[0])
+    fens = sorted(pos_moves)
+    keys = run_cases(MODEL, ['rulekey\t' + f for f in fens], 'C16-rk')
+    bykey = {}
+    for f, k in zip(fens, keys):
+        bykey.setdefault(k, set()).update(pos_moves[f])
+    offers = run_cases(binp, ['book\t' + f for f in fens], 'C16-book')
+    legal = run_cases(MODEL, ['specgen\t' + f for f in fens], 'C16-legal')
+    bad = []
+    for f, k, o, lg in zip(fens, keys, offers, legal):
+        offered = set() if o in (None, 'none') else set(o.split(';'))
+        legalset = set(x.split('=')[0].rsplit('/', 6)[0] for x in (lg or '').split(';') if x)
+        exp = bykey[k]
+        if not offered <= legalset:
+            bad.append((f, 'offers a move that is not legal: %s' % sorted(offered - legalset)))
+        elif quick and not exp <= offered:
+            bad.append((f, 'recorded move not offered: %s' % sorted(exp - offered)))
+        elif not quick and exp != offered:
+            bad.append((f, 'offered %s, recorded %s' % (sorted(offered), sorted(exp))))
+    chk.streams.append({'name': 'book offers on every position of the first ten plies of the %s games' % ('sampled' if quick else 'all'), 'against': 'recorded moves resolved by the extracted SanSpec/Rules, positions identified by the rule key', 'cases': len(fens), 'disagreements': len(bad)})
+    # variants: same placement reached with other castling rights / ep state / by other histories; only legal moves may be offered
+    var = []
+    for f in rnd.sample(fens, min(len(fens), 300 if quick else 5000)):
+        p = f.split(' ')
+        if p[2] != '-':
+            for r in rights_subsets(p[2])[:6]:
+                var.append(' '.join([p[0], p[1], r, '-'] + p[4:]))
+        if p[3] != '-':
+            var.append(' '.join(p[:3] + ['-'] + p[4:]))
+    var = G.filter_legal(list(dict.fromkeys(var)), 'C16-lp')
+    vo = run_cases(binp, ['book\t' + f for f in var], 'C16-vbook')
+    vl = run_cases(MODEL, ['specgen\t' + f for f in var], 'C16-vlegal')
+    vbad = []
+    for f, o, lg in zip(var, vo, vl):
+        offered = set() if o in (None, 'none') else set(o.split(';'))
+        legalset = set(x.split('=')[0].rsplit('/', 6)[0] for x in (lg or '').split(';') if x)
+        if not offered <= legalset:
+            vbad.append((f, 'offers a move that is not legal there: %s' % sorted(offered - legalset)))
+    chk.streams.append({'name': 'book positions with other castling-right / en-passant state: only legal moves offered', 'against': 'extracted rules specification', 'cases': len(var), 'disagreements': len(vbad)})
+    # the extracted model of the book builder (tokenizer, SAN parse, FIRST matching legal move, ten plies) on the same games
+    raw = book_games_raw()
+    rsel = raw if not quick else random.Random(chk.seed).sample(raw, min(len(raw), 500))
+    me = run_cases(MODEL, ['bookgame\t' + G.esc(' '.join(g)) for g in rsel], 'C16-model')
+    mpos = {}
+    merr = [g for g, r in zip(rsel, me) if r is None or r == 'error' or '!HASH' in (r or '')]
+    for r in me:
+        if r and r != 'error':
+            for it in r.split(';'):
+                if '=' in it:
+                    f, mv = it.split('=')
+                    mpos.setdefault(f, set()).add(mv)
+    mfens = sorted(mpos)
+    mkeys = run_cases(MODEL, ['rulekey\t' + f for f in mfens], 'C16-mrk')
+    mby = {}
+    for f, k in zip(mfens, mkeys):
+        mby.setdefault(k, set()).update(mpos[f])
+    mbad = [k for k in mby if k in bykey and (mby[k] != bykey[k] if not quick else False)]
+    moff = dict(zip(fens, offers))
+    mbad2 = []
+    for f, k in zip(mfens, mkeys):
+        o = moff.get(f)
+        if o is None:
+            continue
+        offered = set() if o == 'none' else set(o.split(';'))
+        if (not quick and offered != mby[k]) or (quick and not mpos[f] <= offered):
+            mbad2.append((f, sorted(offered), sorted(mby[k])))
+    chk.streams.append({'name': 'book entries recorded by the extracted model of the builder (Book.game_entries) vs the real book offers', 'against': 'extracted implementation model', 'cases': len(rsel), 'disagreements': len(merr) + len(mbad2)})
+    chk.evaluations += len(fens) + len(var) + len(rsel)
+    chk.extra['unresolved_tokens'] = unresolved[:5]
+    chk.extra['distinct_book_positions'] = len(fens)
+    chk.extra['exhaustive'] = not quick
+    for f in fens:
+        chk.distinct.add(f)
+    chk.rule = 'all games of book/ (thorough) or a seeded sample of 500 (quick): movetext tokenised as the build script does, each token resolved by the independent SanSpec over the rules; every position of the first ten plies looked up in the real book; variants of those positions with fewer castling rights / without the en-passant target'
+    chk.samples += [{'fen': fens[len(fens) // 2], 'offered': offers[len(fens) // 2], 'recorded': sorted(bykey[keys[len(fens) // 2]])}]
+    if unresolved:
+        chk.violation('book token not an admissible spelling of exactly one legal move: %s' % (unresolved[0],), {'kind': 'input', 'unresolved': unresolved[:5]}, found_input=True)
+    for f, msg in (bad + vbad)[:4]:
+        chk.violation('book on %s: %s' % (f, msg), {'kind': 'input', 'fen': f, 'what': msg}, found_input=True)
+    if not (bad or vbad or unresolved):
+        for g in merr[:2]:
+            chk.violation('correspondence broken (book builder model fails on a game the build accepted): %s' % ' '.join(g[:24]), {'kind': 'correspondence', 'game': g}, found_input=False)
+        for f, a, b in mbad2[:2]:
+            chk.violation('correspondence broken (book): on %s the engine offers %s, the builder model records %s' % (f, a, b), {'kind': 'correspondence', 'fen': f}, found_input=False)
